@@ -378,7 +378,12 @@ pub fn run(ctx: &Ctx, rep: &mut Report) {
         }
         let (sl, sr, sc) = (rng.range(0, nid - 1) as i16, rng.range(0, nid - 1) as i16, rng.range(5000, 30000) as i16);
         let spos = pool[rng.below(3)].clone();
-        providers.push(Provider::Simple { left: sl, right: sr, cost: sc, pos: spos.clone() });
+        // one stack in five ends with the MeCab or the regex provider instead of the simple one: whatever stands last
+        // is an ordinary provider at every position AND the one asked again when nothing exists
+        let no_simple = !providers.is_empty() && rng.chance(1, 5);
+        if !no_simple {
+            providers.push(Provider::Simple { left: sl, right: sr, cost: sc, pos: spos.clone() });
+        }
         let mut p = PluginOpts::none();
         p.char_def = Some(tokenizer_char_def.clone());
         p.simple = (sl as i64, sr as i64, sc as i64);
@@ -393,7 +398,9 @@ pub fn run(ctx: &Ctx, rep: &mut Report) {
             w.unk_def = defs.unk_def.clone();
             let mut cfg = w.cfg_json.clone();
             let mut oov = oov_cfg.clone();
-            oov.push(crate::env::simple_oov(&spos, sl as i64, sr as i64, sc as i64));
+            if !no_simple {
+                oov.push(crate::env::simple_oov(&spos, sl as i64, sr as i64, sc as i64));
+            }
             cfg["oovProviderPlugin"] = json!(oov);
             let c = crate::env::config(&cfg, &w.res);
             w.dict = crate::env::load(&c, &w.sys_bytes, &w.user_bytes, Place::Owned).map_err(|e| format!("load failed: {:?}", e))?;
@@ -412,6 +419,9 @@ pub fn run(ctx: &Ctx, rep: &mut Report) {
             }
         };
         rep.count("definition_sets", 1);
+        if no_simple {
+            rep.count("definition_sets_whose_last_provider_is_not_the_simple_one", 1);
+        }
         if own_class_table && providers.iter().any(|p| matches!(p, Provider::MeCab)) {
             rep.count("definition_sets_with_a_class_table_of_the_provider", 1);
         }
@@ -432,6 +442,11 @@ pub fn run(ctx: &Ctx, rep: &mut Report) {
             t.tok.reset().push_str(&text);
             match guard(|| t.tok.do_tokenize()) {
                 Ok(Ok(())) => {}
+                Ok(Err(_)) if no_simple => {
+                    // without a provider that always produces something a position may be left without any word
+                    rep.count("analyses_refused_in_stacks_without_the_simple_provider", 1);
+                    continue;
+                }
                 Ok(Err(e)) => {
                     rep.violation("no_candidate", "do_tokenize", &format!("analysis failed although a fallback provider is configured: {:?}", e), "", json!({"world_index": wi, "text": text, "world": world.describe(true)}));
                     continue;
